@@ -415,6 +415,15 @@ func (u *lunit) place(name, whyPrefix string, forms []lform) string {
 
 // takeName draws a pool name this unit has not used yet ("" when none is left).
 func (u *lunit) takeName() string {
+	// a pool name may have been taken by another route in the meantime (a twin, a case variant of a
+	// called method): two imports of one simple name would make the verdicts contradict each other
+	var free []string
+	for _, name := range u.left {
+		if !u.taken[name] {
+			free = append(free, name)
+		}
+	}
+	u.left = free
 	if len(u.left) == 0 {
 		return ""
 	}
